@@ -7,7 +7,7 @@ from common import proof_audit, run_fjv, workdir, pmap, FJM, FJV, ENV, TRUSTED_B
 
 LEVEL = "proof"
 COQ_TARGETS = ("props/C17.vo",)
-THEOREMS = ["C17_marker", "C17_refused_unmodified", "C17_locked_unmodified", "C17_lock_iff_handle"]
+THEOREMS = ["C17_marker", "C17_refused_unmodified", "C17_locked_unmodified", "C17_lock_iff_handle", "C17_absent_marker_refuted"]
 
 
 def tree_hash(d, shallow=False):
@@ -75,19 +75,26 @@ def marker_variants(r, n):
 
 def marker_case(args):
     wd_db, content = args
+    nolock = False
+    if isinstance(content, tuple):
+        content, nolock = content
     wd = workdir()
     try:
         db = os.path.join(wd, "db")
         shutil.copytree(wd_db, db)
+        if nolock:
+            os.remove(os.path.join(db, "lock"))     # e.g. a directory copied without its lock file, or written by 1.x/2.x
         if content is None:
             os.remove(os.path.join(db, "version"))
         else:
             open(os.path.join(db, "version"), "wb").write(content)
         before = tree_hash(db)
+        names0 = set(os.listdir(db))
         o, raw, rc = run_fjv("open plain\n", dbdir=db)
         after = tree_hash(db)
+        added = sorted(set(os.listdir(db)) - names0)
         res = o.get(1, "<none>")
-        return dict(content=None if content is None else content.hex(), res=res, unchanged=(before == after))
+        return dict(content=None if content is None else content.hex(), res=res, unchanged=(before == after), nolock=nolock, added=added)
     finally:
         shutil.rmtree(wd, ignore_errors=True)
 
@@ -145,6 +152,36 @@ def slow_worker_drop(mode, workers):
     return None
 
 
+def sealed_journal_drop(mode):
+    """a sealed journal is tracked (with keyspace handles as eviction watermarks) when the last handle is dropped, first
+    one sealed in this session, then one recovered from disk: the drop must release the directory (reopen in the SAME
+    process must succeed and see the data) and no worker may stay behind"""
+    L = ["open %s jcomp=none workers=2" % mode, "ks h0 hot", "ks h1 cold", "put h1 63 01", "bigfill h0 66 1024 t0", "rotate h0",
+         "sleep 1500", "info", "reopen", "ks h1 cold", "get - h1 63", "put h1 64 02", "reopen", "ks h1 cold", "get - h1 64", "close", "sleep 300"]
+    prog = "\n".join(L) + "\n"
+    wd = workdir()
+    try:
+        db = os.path.join(wd, "db")
+        pa = os.path.join(wd, "a.prog")
+        open(pa, "w").write(prog + "sleep 1500\n")
+        a = subprocess.Popen([FJV, "run", pa, db], env=ENV, stdout=subprocess.PIPE, stderr=subprocess.PIPE, text=True)
+        out, err = a.communicate(timeout=300)
+        o = {}
+        for l in out.splitlines():
+            t = l.split(" ", 1)
+            if t[0].isdigit():
+                o[int(t[0])] = t[1] if len(t) > 1 else ""
+        if "journals=2" not in o.get(8, ""):
+            return None, False
+        if o.get(9) != "ok" or o.get(11) != "some 01" or o.get(13) != "ok" or o.get(15) != "some 02":
+            return ("with a sealed journal tracked, dropping the last handle does not release the directory: reopen in the same "
+                    "process: %s (read %s), second reopen: %s (read %s); info before: %s"
+                    % (o.get(9), o.get(11), o.get(13), o.get(15), o.get(8)), prog), True
+        return None, True
+    finally:
+        shutil.rmtree(wd, ignore_errors=True)
+
+
 def worker_threads(pid):
     n = 0
     try:
@@ -167,6 +204,22 @@ def run(rep, tier, seed, build):
         base = make_db(wd)
         variants = marker_variants(r, 260 if tier == "quick" else 5000)
         results = pmap(marker_case, [(base, v) for v in variants] + [(base, None)])
+        # refused directories that have no lock file yet: the refusal must not create one
+        good = bytes([70, 74, 76, 3])
+        nl = [v for v in variants if v != good][: (40 if tier == "quick" else 600)]
+        res_nl = pmap(marker_case, [(base, (v, True)) for v in nl] + [(base, (None, True))])
+        bad_nl = [x for x in res_nl if x["res"] == "ok" or not x["unchanged"]]
+        from common import known_switch
+        f18 = known_switch("C17", "no_marker_no_lock")
+        for x in list(bad_nl):
+            # known finding E18: marker absent AND lock file absent in an otherwise complete database directory
+            if f18 and x["content"] is None and x["nolock"] and x["res"].startswith("err") and x["added"] == ["lock"]:
+                rep.known_finding("no_marker_no_lock (%s): %s" % (f18["id"], f18["what"]))
+                bad_nl.remove(x)
+        for x in bad_nl[:2]:
+            rep.violation("# C17: directory without a lock file and with version marker %s: open gives '%s', directory %s "
+                          "(a refused open must leave the directory as it was)\n"
+                          % (x["content"], x["res"], "unchanged" if x["unchanged"] else "MODIFIED"))
         model = model_marker([(x["content"] if x["content"] not in (None, "") else ("absent" if x["content"] is None else "-"), 0, 1)
                               for x in results])
         bad = []
@@ -190,12 +243,17 @@ def run(rep, tier, seed, build):
                 lp.append((mode, sw[0]))
                 rep.violation("# C17 (%s database, %d workers): %s\n%s" % (mode, w, sw[0], sw[1]))
                 break
+        sj, sj_eff = sealed_journal_drop("plain" if seed % 2 else "sw")
+        if sj:
+            lp.append(("sealed", sj[0]))
+            rep.violation("# C17: %s\n%s" % sj)
         if problems and not rep.violations:
             rep.violation("# C17: proof obligations no longer check\n" + "\n".join(problems) + "\n", suffix="no-failing-input-found")
         rep.coverage = dict(
             obligations=obl, discharged=dis if not problems else min(dis, obl - 1),
             checker_cmd="cd coq && make props/C17.vo (coqc 8.16.1) + Print Assumptions audit", trusted_base=TRUSTED_BASE,
-            programs=len(results) + 2, traces_validated_against_impl=len(results), disagreements_checked=len(bad) + len(lp),
+            programs=len(results) + 2, traces_validated_against_impl=len(results), disagreements_checked=len(bad) + len(lp) + len(bad_nl),
+            no_lock_file_cases=len(res_nl), sealed_journal_drop_effective=sj_eff,
             evaluations=len(results) + 2, distinct_nontrivial=len({x["content"] for x in results}),
             rule="version marker contents: every single-byte variant of 'FJL\\x03', truncations, extensions, other versions, "
                  "random strings and an absent marker over a real database directory (with a journal and tables); open result "
